@@ -15,9 +15,9 @@ THEOREMS = [
     ('EAO.Properties.C03', 'EAO.C03.concatVec_block', 'the concatenated solution restricted to interval i is the i-th interval solution'),
     ('EAO.Properties.C01', 'EAO.C01.nodal_balance_split', 'the concatenated solution satisfies nodal balance at the original steps'),
     ('EAO.Properties.C04', 'EAO.C04.value_accounting_split', 'value accounting interval by interval'),
-] + SP.THEOREMS_C14_SPLIT
-PARTIAL = ['split = unsplit (value and dispatch, when nothing couples the intervals) is a per-instance certificate: theorem split_equals_unsplit(_bool) under the decidable witness splitWitness, which the driver evaluates EXACTLY on the real unsplit problem and the real interval problems of every uncoupled case (a false witness there is reported as a broken tie); it is not a theorem about the builders (\"for every uncoupled portfolio the witness holds\"). No witness exists when the unsplit problem needs the two-variable form of a contract and an interval gets by with one variable (different variable sets; feature witness:none, oracle only). split <= unsplit for storages with start level = end level rests on the oracle (transport of the concatenated solution into the unsplit problem) only']
-COMPONENTS = ['per-interval assemble on captured asset problems vs the interval problems of setup_split_optim_problem', 'index shift / original step numbers of the joint mapping', 'split-witness: exact evaluation of splitWitness (unsplit real problem renamed along the matching of the variables = block sum of the real interval problems)']
+] + SP.THEOREMS_C14_SPLIT + SP.THEOREMS_C14_LE
+PARTIAL = ['the relation to the UNSPLIT problem is decided by per-instance certificates, not by a theorem about the builders: split = unsplit (value and dispatch) by theorem split_equals_unsplit(_bool) under the decidable witness splitWitness, split <= unsplit (and: the concatenated split solution satisfies every row and bound of the unsplit problem) by split_solution_le_unsplit(C)(_bool) under splitLeWitness(C) with exact row-implication multipliers; the driver evaluates the witnesses EXACTLY on the real unsplit problem and the real interval problems of every case of the uncoupled resp. storage streams (a false witness there is reported as a broken tie). Outside the certificates, on the numerical oracle only: cases in which the unsplit problem needs the two-variable form of a contract and an interval gets by with one variable (different variable sets, no matching), and storages with holding costs whose float cost vectors differ from an exact multiple of the end-level rows by rounding noise']
+COMPONENTS = ['per-interval assemble on captured asset problems vs the interval problems of setup_split_optim_problem', 'index shift / original step numbers of the joint mapping', 'split-witness: exact evaluation of splitWitness (unsplit real problem renamed along the matching of the variables = block sum of the real interval problems)', 'split-le-witness: exact evaluation of splitLeWitness(C) (every unsplit row implied by interval rows with explicit multipliers found numerically)']
 RULE = ('random portfolios x interval sizes (aligned and not aligned with the horizon, incl. partial last interval); three streams: uncoupled assets only (value and dispatch equal to unsplit), storages with start=end level as only coupling (split <= unsplit, concatenated solution feasible for unsplit), anything (sum of interval optima, balance, limits, original steps); '
         'non-trivial = at least 2 non-empty intervals and a non-zero value; distinct by scenario hash')
 ASSUMPTIONS = ['values compared with tolerance 2e-6 relative']
@@ -213,6 +213,21 @@ def run_case(scn, drv):
                 r['observed_witness'] = True
         except Exception as e:
             r['disagreements'].append({'component': 'split-witness', 'detail': 'witness could not be evaluated: %s: %s' % (type(e).__name__, str(e)[:200])})
+    # --- certificate: every row of the unsplit problem is implied by the rows of the interval problems (hypothesis of
+    #     EAO.C14.split_solution_le_unsplit(C)): split <= unsplit, concatenated solution feasible on the original grid
+    if scn['stream'] in ('storage', 'storage_ne') and len(rec['op'].c) <= 300:
+        try:
+            w = SP.le_witness_check(rec, rs, drv)
+            feats.append('le-witness:%s' % {True: 'true', False: 'false', None: 'none'}[w['witness']])
+            if w.get('objective'):
+                feats.append('le-objective:' + str(w['objective']))
+            r['evaluated'] += 1
+            if w['witness'] is False and scn['stream'] == 'storage' and 'objective' not in str(w.get('reason', ''))[:40] and w.get('objective') != '-':
+                r['disagreements'].append({'component': 'split-le-witness', 'detail': 'storages with start level = end level are the only coupling but splitLeWitness is false: ' + str(w['reason'])[:300]})
+            elif w['witness'] is False and scn['stream'] == 'storage':
+                feats.append('le-witness-false:objective-not-certified')
+        except Exception as e:
+            r['disagreements'].append({'component': 'split-le-witness', 'detail': 'witness could not be evaluated: %s: %s' % (type(e).__name__, str(e)[:200])})
     # --- optimise
     try:
         pf.solve_rec(rs)
